@@ -138,7 +138,10 @@ def _history_independence(A):
         except Exception:
             pass
         steps.append(label)
-        again = repr(observe(cc.Chart.from_file(io.StringIO(A))))
+        try:
+            again = repr(observe(cc.Chart.from_file(io.StringIO(A))))
+        except Exception as e:
+            return {"history": "; ".join(steps) + "; parse A again", "observed": f"the second parse of A raises {type(e).__name__}: {e}"[:300], "chart_text": A}
         if again != first:
             return {"history": "; ".join(steps) + "; parse A again", "observed": "the second parse of A differs from the first", "chart_text": A}
         if fresh is not None and again != fresh:
